@@ -73,6 +73,9 @@ type Run struct {
 	// (non-terminal) route and the consumer sits in the next route; "subroute" = the throttle handler sits in a subroute
 	// and the consumer follows the subroute. In both, the stream is read after the throttle handler's Handle returned.
 	Layout string `json:"layout,omitempty"`
+	// NextMatch > 0 (own-route layout): the route that follows the throttle handler's route has a matcher that needs this
+	// many bytes, so the first read of the connection is the matching phase's prefetch - after the throttle handler ran
+	NextMatch int `json:"next_match,omitempty"`
 	// PreMatch > 0: a matcher that needs this many bytes decides the route before the throttle handler runs, so the
 	// handler starts with prefetched, not yet consumed bytes (they are not throttled; they must not be lost)
 	PreMatch int `json:"pre_match,omitempty"`
@@ -100,6 +103,8 @@ var specials = []*Run{
 	{Rate: 0, Burst: 0, TotalRate: 2048, TotalBurst: 0, BufSize: 32 << 10, Conns: 2, DurationMs: 700},
 	// the stream is read after the throttle handler's Handle has returned
 	{Rate: 2000, Burst: 200, BufSize: 512, Conns: 2, DurationMs: 900, Layout: "own-route"},
+	{Rate: 2000, Burst: 200, LatencyMs: 120, BufSize: 512, Conns: 2, DurationMs: 900, Layout: "own-route", NextMatch: 16},
+	{Rate: 0, TotalRate: 3000, TotalBurst: 250, BufSize: 512, Conns: 2, DurationMs: 900, Layout: "own-route", NextMatch: 1},
 	{Rate: 0, TotalRate: 4000, TotalBurst: 300, BufSize: 512, Conns: 3, DurationMs: 900, Layout: "subroute"},
 	// prefetched bytes in front of the throttle handler
 	{Rate: 20000, Burst: 500, BufSize: 512, Conns: 2, DurationMs: 700, PreMatch: 2000},
@@ -164,6 +169,9 @@ func genRun(seed int64, i int) *Run {
 	switch r.Intn(6) {
 	case 0:
 		ru.Layout = "own-route"
+		if r.Intn(2) == 0 {
+			ru.NextMatch = []int{1, 16, 200}[r.Intn(3)]
+		}
 	case 1:
 		ru.Layout = "subroute"
 	case 2:
@@ -241,7 +249,11 @@ func execute(c *fw.Ctx, ru *Run) {
 	var routeList []any
 	switch ru.Layout {
 	case "own-route":
-		routeList = []any{map[string]any{"handle": []any{span, th}}, map[string]any{"handle": []any{last}}}
+		next := map[string]any{"handle": []any{last}}
+		if ru.NextMatch > 0 {
+			next["match"] = []any{map[string]any{"verif_m1": map[string]any{"id": "next", "need": ru.NextMatch, "at": 0, "eq": 256, "neg": true, "pattern": "peek"}}}
+		}
+		routeList = []any{map[string]any{"handle": []any{span, th}}, next}
 	case "subroute":
 		routeList = []any{map[string]any{"handle": []any{span,
 			map[string]any{"handler": "subroute", "routes": []any{map[string]any{"handle": []any{th}}}}, last}}}
@@ -390,7 +402,7 @@ func execute(c *fw.Ctx, ru *Run) {
 		pulled := int(cs.server.BytesRead.Load())
 		if len(got) > len(cs.stream) || !bytes.Equal(got, cs.stream[:len(got)]) {
 			report("stream-not-intact", "the sink read bytes that are not a prefix of the client's stream: "+oracle.Diff(got, cs.stream[:min(len(got), len(cs.stream))]), nil)
-		} else if len(got) != pulled && !((ru.Matcher > 0 || ru.PreMatch > 0) && len(got) == 0) { // (matching that fails drops what it had prefetched)
+		} else if len(got) != pulled && !((ru.Matcher > 0 || ru.PreMatch > 0 || ru.NextMatch > 0) && len(got) == 0) { // (matching that fails drops what it had prefetched)
 			report("stream-lost-bytes", fmt.Sprintf("%d bytes were pulled from the client but the sink read %d", pulled, len(got)), nil)
 		}
 		hmods.Untrack(cs.id)
